@@ -1214,3 +1214,99 @@ def expand_locals(fn, tree, depth=4):
             return [sub(v, d) for v in x]
         return x
     return sub(tree, depth)
+
+
+def interp(fn, env, until=None, max_paths=32, max_steps=4000, unknown_both=True):
+    """A small concrete interpreter over the event CFG: starting with `env` (canonical text -> value), declarations and
+    plain assignments of locals / members whose right-hand side evaluates are recorded (otherwise the name is forgotten),
+    ++/-- on known integers are applied, branch conditions are decided with the *current* environment (a condition that
+    does not evaluate is explored both ways when unknown_both).  Stops a path at the first event for which until(ev) holds
+    (returned with the environment just before it), at a return / throw / the exit, or when a block repeats too often.
+    Returns a list of (end, env, events, stop_event)."""
+    out = []
+    budget = [max_steps]
+
+    def step_env(e_, ev):
+        k = ev.get("k")
+        if k == "decl" and ev.get("init") is not None:
+            try:
+                e_[ev["var"]] = eval_tree(ev["init"], e_)
+            except Unknown:
+                e_.pop(ev["var"], None)
+        elif k == "write":
+            name = P(ev["lhs"])
+            op = ev.get("op")
+            try:
+                if op == "=":
+                    e_[name] = eval_tree(ev["rhs"], e_)
+                elif op in ("++", "--") and name in e_:
+                    e_[name] = e_[name] + (1 if op == "++" else -1)
+                elif op in ("+=", "-=", "%=", "*=") and name in e_:
+                    r = eval_tree(ev["rhs"], e_)
+                    e_[name] = {"+=": e_[name] + r, "-=": e_[name] - r, "*=": e_[name] * r, "%=": (e_[name] % r) if r else e_[name]}[op]
+                else:
+                    e_.pop(name, None)
+            except Unknown:
+                e_.pop(name, None)
+        elif k == "call" and ev.get("op") == "=" and ev.get("recv") is not None and ev.get("args"):
+            name = P(ev["recv"])
+            try:
+                e_[name] = eval_tree(ev["args"][0], e_)
+            except Unknown:
+                e_.pop(name, None)
+
+    def go(b, e_, evs, visits):
+        while True:
+            if budget[0] <= 0 or len(out) >= max_paths:
+                out.append(("limit", e_, evs, None))
+                return
+            budget[0] -= 1
+            visits = dict(visits)
+            visits[b] = visits.get(b, 0) + 1
+            if visits[b] > 6:
+                out.append(("loop", e_, evs, None))
+                return
+            blk = fn.blocks[b]
+            for i, ev in enumerate(blk.events):
+                if until is not None and until(ev):
+                    out.append(("stop", dict(e_), evs + [(b, i, ev)], ev))
+                    return
+                evs = evs + [(b, i, ev)]
+                if ev.get("k") == "return":
+                    out.append(("return", dict(e_), evs, ev))
+                    return
+                if ev.get("k") == "throw":
+                    out.append(("throw", dict(e_), evs, ev))
+                    return
+                step_env(e_, ev)
+            if blk.term.get("noreturn"):
+                out.append(("noreturn", dict(e_), evs, None))
+                return
+            succ = blk.succ
+            if not succ:
+                out.append(("exit", dict(e_), evs, None))
+                return
+            if len(succ) == 1:
+                b = succ[0][1]
+                continue
+            labels = [l for l, _, _ in succ]
+            if "true" in labels and blk.cond is not None:
+                try:
+                    truth = bool(eval_tree(blk.cond, e_))
+                except Unknown:
+                    a, pos = cond_atoms(blk.cond)
+                    truth = (e_[a] == pos) if a in e_ and isinstance(e_[a], bool) else None
+                if truth is None:
+                    if not unknown_both:
+                        out.append(("undecided", dict(e_), evs, None))
+                        return
+                    for l, t, _ in succ:
+                        go(t, dict(e_), evs, visits)
+                    return
+                b = [t for l, t, _ in succ if l == ("true" if truth else "false")][0]
+                continue
+            for l, t, _ in succ:
+                go(t, dict(e_), evs, visits)
+            return
+    go(fn.entry, dict(env), [], {})
+    return out
